@@ -23,3 +23,5 @@ if [ $INREPO = 1 ]; then git -C /repo checkout -- .; git -C /repo status --short
 else git -C /repo worktree remove --force "$R"; fi
 # leave Extracted.v describing the unchanged tree again
 /venv/bin/python /verif/tools/extract_facts.py /repo /verif/coq/theories/Extracted.v
+/venv/bin/python /verif/tools/translate_identify.py /repo /verif/coq/theories >/dev/null 2>&1 || true
+/venv/bin/python /verif/tools/translate_traversal.py /repo /verif/coq/theories >/dev/null 2>&1 || true
